@@ -249,6 +249,7 @@ void WithType(const std::string& t, F&& f)
 	else if (t == "vec_vec_u8") f(static_cast<std::vector<std::vector<uint8_t>>*>(nullptr));
 	else if (t == "map_str_i32") f(static_cast<std::map<std::string, int32_t>*>(nullptr));
 	else if (t == "map_i32_str") f(static_cast<std::map<int32_t, std::string>*>(nullptr));
+	else if (t == "map_tp_i32") f(static_cast<std::map<TpNs, int32_t>*>(nullptr));
 	else if (t == "opt_i32") f(static_cast<std::optional<int32_t>*>(nullptr));
 	else if (t == "uptr_i32") f(static_cast<std::unique_ptr<int32_t>*>(nullptr));
 	else if (t == "sptr_str") f(static_cast<std::shared_ptr<std::string>*>(nullptr));
